@@ -1,6 +1,7 @@
 import TakVerif.Proofs.FPAMini
 import TakVerif.Proofs.FPAFast
 import TakVerif.Proofs.FPAPinned
+import TakVerif.Proofs.FPAFrameTop
 
 /-! # C20 — first-player-advantage opening scripts always produce legal, self-accepted moves
 
@@ -21,7 +22,7 @@ counterpart of `Position.AllMoves`, C03; the exhaustive correspondence `fpaopts`
 it yields with those of the real generator for every node of every opening, sizes 4..8), and the link
 from `Spec.step` to the bit-level `Position.Move` (C01). -/
 namespace C20
-open Tak Tak.FPA Spec.FPA Proofs.FPA Proofs.FPAMini Proofs.FPAPinned Proofs.FPAFast
+open Tak Tak.FPA Spec.FPA Proofs.FPA Proofs.FPAMini Proofs.FPAPinned Proofs.FPAFast Proofs.FPAFrame
 
 /-- C20 for one variant, bot colour and board size -/
 def Holds (var : Variant) (color : Color) (size horizon : Nat) : Prop :=
@@ -70,33 +71,44 @@ theorem fpa_centre : ∀ size ∈ [4, 5, 6, 7, 8], ∀ color ∈ [Color.white, C
 def fpa_doubleStack_statement : Prop :=
   ∀ size ∈ [4, 5, 6, 7, 8], ∀ color ∈ [Color.white, Color.black], Holds .doubleStack color size 6
 
-/-- the full claim for the cairn variant (proved part: `fpa_cairn_partial` in `Props/C20_all.lean`) -/
+/-- the full claim for the cairn variant (proved: `fpa_cairn` in `Props/C20_all.lean`) -/
 def fpa_cairn_statement : Prop :=
   ∀ size ∈ [4, 5, 6, 7, 8], ∀ color ∈ [Color.white, Color.black], Holds .cairn color size 6
 
 /-- **How the two statements are discharged.**  `Holds var color size 6` follows from one evaluation of the
 opening game on the sparse board (`Proofs.FPAMini.mini_sound`: the evaluator is proved sound and the sparse
 board is proved to be a homomorphic image of the rule book).  The evaluation is a kernel computation
-(`decide +kernel`) whose cost grows with the number of openings (≈ size⁴; about one CPU-minute and
-1.5 GB per 200 openings): it is carried out, cut into one piece per first move, for the 4×4 and 5×5
-boards (`Props/C20_size4.lean`, `Props/C20_size5.lean`: `fpa_doubleStack_partial*`, `fpa_cairn_partial*`
-— an even and an odd board, which take different branches of the centre geometry).  Sizes 6..8 go
-through the faster evaluator (`holds_of_fcheck` below; `Props/C20_size6..8.lean`), and
-`Props/C20_all.lean` combines the sizes: `fpa_doubleStack` proves `fpa_doubleStack_statement`;
-`fpa_cairn_partial` is the proved part of `fpa_cairn_statement` (what is missing — the bot as Black on
-6×6, both colours on 7×7 and 8×8 — is covered on every run by the exhaustive correspondence of the same
-model against the real code, not by a kernel evaluation). -/
+(`decide +kernel`) whose cost grows with the number of openings (≈ size⁴; with this plain evaluator about
+one CPU-minute and 1.5 GB per 200 openings), so it goes through the faster evaluator (`holds_of_fcheck`
+below), cut into one piece per first move for the double-stack variant, and through the frame theorem for
+the cairn variant (`holds_of_frame` below); the pieces are generated (`bin/gen-c20-shards.py`,
+`Proofs/C20Shards/`, `Props/C20_size4..8.lean`) and `Props/C20_all.lean` combines the sizes:
+`fpa_doubleStack` proves `fpa_doubleStack_statement`, `fpa_cairn` proves `fpa_cairn_statement`. -/
 theorem holds_of_check (var : Variant) (color : Color) (size : Nat)
     (h : check miniBoard FM var color 6 (minit size) = true) : Holds var color size 6 :=
   mini_sound var color 6 size h
 
-/-- The same through the faster evaluator `Proofs.FPAFast.fcheck` (sizes 6..8): at every node where the
+/-- The same through the faster evaluator `Proofs.FPAFast.fcheck`: at every node where the
 move is free it tests only the slides from the occupied squares and the flat placements on the few
 squares the variant's rule can accept at that ply (`fast_complete`: no accepted legal move of the
 generator is left out), and it does not build the states after the last scripted ply (`good_late`). -/
 theorem holds_of_fcheck (var : Variant) (color : Color) (size : Nat)
     (h : fcheck var color 6 (minit size) = true) : Holds var color size 6 :=
   holds_of_check var color size (fcheck_check var color 6 (minit size) h)
+
+/-- **The cairn variant through the frame theorem** (sizes 6..8).  From ply 2 on the cairn rule reads, and the
+moves it scripts or accepts touch, only the centre squares and their neighbours (`Proofs.FPAFrame.nearS`: the
+squares `isCenterAdjacent` or `isCentered` accept — 12 on an even board, 5 on an odd one); the first stones
+elsewhere are never looked at or moved.  `Proofs.FPAFrame.check_frame` proves that two states whose boards agree
+on these squares and carry at most one piece on every other square have the same evaluation.  The claim for a
+board size then follows from (`htab`) one evaluation of the opening from ply 2 for every placement of at most
+one black and one white stone on these squares (`tab`: 157 entries on an even board, 31 on an odd one;
+`stOfKey`), and (`hroot`) the enumeration of all pairs of first stones, each looked up in the table by the
+stones it has on the squares of `mask` (`maskOK`: the mask covers `nearS`). -/
+theorem holds_of_frame (color : Color) (size mask : Nat) (tab : List (Nat × Key)) (h4 : 4 ≤ size) (h64 : size ≤ 64)
+    (hmask : maskOK size mask = true) (htab : tabOK color size tab = true)
+    (hroot : frameCheck color size mask tab = true) : Holds .cairn color size 6 :=
+  holds_of_check .cairn color size (frame_sound color size mask tab h4 h64 hmask htab hroot)
 
 /-! ## the pinned scripts violate the claim (the three defect families, on concrete openings) -/
 
